@@ -1457,6 +1457,21 @@ class Evaluator:
                 return base[i]
             raise Outside("symbolic index into a tuple")
         if isinstance(base, SeqVal):
+            if isinstance(n.slice, ast.Slice):
+                # seq[a:b] with literal (possibly negative) bounds of a symbolic sequence of length n >= |a|, |b|
+                if n.slice.step is not None or base.n is None:
+                    raise Outside("sequence slice form")
+                lo = simp(self.eval(n.slice.lower)) if n.slice.lower is not None else 0
+                hi = simp(self.eval(n.slice.upper)) if n.slice.upper is not None else None
+                if not isinstance(lo, int) or not (hi is None or isinstance(hi, int)):
+                    raise Outside("symbolic bounds in a sequence slice")
+                nn = Z(base.n)
+                zlo = (nn + lo) if lo < 0 else z3.IntVal(lo)
+                zhi = nn if hi is None else ((nn + hi) if hi < 0 else z3.IntVal(hi))
+                self.wd(z3.And(zlo >= 0, zhi <= nn), "sequence_slice_within_bounds", n)  # (no clamping is modelled)
+                length = simp(z3.If(zhi > zlo, zhi - zlo, 0))
+                g = base.getter
+                return SeqVal(length, lambda i: g(simp(zlo + Z(i))))
             i = self.eval(n.slice)
             return base.get(self, i, n)
         if isinstance(base, Mat):
